@@ -23,7 +23,22 @@ Oracles (the property itself, evaluated on navis' output, independent of the mod
  fragments partition the nodes and coincide with "same root"; after stitching ids are unique, every input keeps
  its topology and coordinates under the induced id map, connectors and tags follow that map.
 Back-ends: every case runner takes `be` (harness/backends.py); the thorough tier repeats the heal and fragment
-streams under igraph and networkx."""
+streams under igraph and networkx.
+
+Second pass:
+ * stitch: BEFORE the requested method runs, the combine step alone (`method='NONE'`, which never touches the graph code) is judged by the
+   Lean checker `stitchOKB` (proved sound in Props/C11: ids unique, ONE injective id map per input that fixes root markers, master untouched,
+   rows / parents / connectors / tags exactly the remapped inputs') on navis' own table; the fused result is judged by `stitchOKB … fused`.
+   Streams: partial clashes where a non-master neuron owns larger non-clashing ids (exhaustive small cross product + random), ≥ 3 SWC-style
+   1..n neurons, `master='SOMA'` with explicit somas, `max_dist` next to a cross distance.
+ * heal: minimality on navis' own output is decided by the Lean checker `healMinOKB` (proved sound: the added edges are allowed connections
+   of minimal total weight among ALL allowed connection lists) — also on inputs WITH ties and coincident nodes (stream `healtie`), where the
+   exact correspondence is not defined; navis' internal fragment graph (captured from `nx.minimum_spanning_edges`) is compared with the
+   as-written candidate model `quotientEdgesKD`; `max_dist` as int / float / numpy float / unit string, NeuronList input, `inplace=True`,
+   lower-case method, mask as list / boolean array / integer array.
+ * combine_neurons on MeshNeurons / Dotprops: nothing lost (vertex set, face coordinate triples, points), faces vs `concatFaces`.
+ * `max_dist = 0` (0, 0.0, numpy 0) is a limit like any other: nothing is strictly closer than 0, so nothing may be connected (formerly treated as
+   "no limit"; fixed in navis, ordinary oracle now) — in the heal, healtie and stitch streams and the `healzero` corpus case."""
 import itertools, math, random as _random, warnings
 import numpy as np
 import pandas as pd
@@ -209,12 +224,15 @@ def rand_opts(rng, rows):
         if cross:
             v = rng.choice(sorted(cross)[:max(1, len(cross) // 3)])
             o['max_dist'] = max(1, math.isqrt(v) + rng.choice([0, 1, 1, 5]))
+    elif u < 0.5:
+        o['max_dist'] = 0                   # a limit of 0: nothing may be connected
+        o['md_form'] = rng.choice(['num', 'float', 'np'])
     if rng.random() < 0.3:
         o['min_size'] = rng.randint(1, 4)
     if rng.random() < 0.3:
         k = rng.randint(0, len(ids))
         o['mask'] = sorted(rng.sample(ids, k))
-        o['mask_form'] = rng.choice(['list', 'bool'])
+        o['mask_form'] = rng.choice(['list', 'bool', 'bool', 'array', 'boollist'])
     if rng.random() < 0.2:
         o['drop_disc'] = True
     return o
@@ -254,10 +272,26 @@ def gen_tie_case(rng):
 # ---------------------------------------------------------------------------------------------
 # heal
 # ---------------------------------------------------------------------------------------------
+def bounds(case):
+    """(strict squared bound of the code: usable iff d2 < strict, inclusive squared bound of the property: d2 <= incl).
+    `max_dist` is an integer L, or L + 1/2 when case['md_half'] (then (L+.5)^2 = L^2 + L + 1/4)."""
+    L = case['max_dist']
+    if L is None:
+        return None, None
+    if case.get('md_half'):
+        return L * L + L + 1, L * L + L
+    return L * L, L * L
+
+
+def md_value(case):
+    L = case['max_dist']
+    return None if L is None else (L + 0.5 if case.get('md_half') else L)
+
+
 def _heal_cmd(case):
     meth = case['method']
-    m = meth if isinstance(meth, str) else 'L=' + ','.join(map(str, meth))
-    md = 'inf' if case['max_dist'] is None else str(case['max_dist'] ** 2)
+    m = meth.upper() if isinstance(meth, str) else 'L=' + ','.join(map(str, meth))
+    md = 'inf' if case['max_dist'] is None else str(bounds(case)[0])
     ms = '-' if case['min_size'] is None else str(case['min_size'])
     if case['mask'] is None:
         mk = '*'
@@ -284,33 +318,116 @@ def _ue_pm(pm):
     return sorted(tuple(sorted((i, p))) for i, p in pm.items() if p >= 0)
 
 
+class _spy_mst:
+    """records the fragment graph `_stitch_mst` hands to `nx.minimum_spanning_edges` (edges carrying `node_a` / `node_b` / `distance`)"""
+
+    def __enter__(self):
+        import networkx as nx
+        self.nx, self.orig, self.cap = nx, nx.minimum_spanning_edges, []
+
+        def spy(g, *a, **k):
+            try:
+                es = [(d['node_a'], d['node_b'], d['distance']) for _, _, d in g.edges(data=True) if 'node_a' in d]
+                if es or g.number_of_edges() == 0:
+                    self.cap.append(es)
+            except Exception:
+                pass
+            return self.orig(g, *a, **k)
+        nx.minimum_spanning_edges = spy
+        return self
+
+    def __exit__(self, *a):
+        self.nx.minimum_spanning_edges = self.orig
+
+
+def _heal_kwargs(case, x):
+    """keyword arguments of the navis call in the FORM the case asks for"""
+    mask = case['mask']
+    kw = dict(method=case['method'], min_size=case['min_size'], drop_disc=bool(case.get('drop_disc')))
+    v = md_value(case)
+    form = case.get('md_form', 'num')
+    if v is not None and form == 'str':
+        kw['max_dist'] = f'{v * 8} nm'            # the neuron is in units of 8 nm (see case_heal)
+    elif v is not None and form == 'np':
+        kw['max_dist'] = np.float64(v)
+    elif v is not None and form == 'float':
+        kw['max_dist'] = float(v)
+    else:
+        kw['max_dist'] = v
+    if mask is not None:
+        mf = case.get('mask_form')
+        if mf == 'bool':
+            kw['mask'] = np.array([i in set(mask) for i in x.nodes.node_id.values], dtype=bool)
+        elif mf == 'boollist':
+            kw['mask'] = [bool(i in set(mask)) for i in x.nodes.node_id.values]
+        elif mf == 'array':
+            kw['mask'] = np.array(list(mask), dtype=np.int64)
+        else:
+            kw['mask'] = list(mask)
+    return kw
+
+
+def _call_heal(case, x, kw):
+    """plain call / NeuronList input / inplace=True; returns (result, second result of the list call or None)"""
+    call = case.get('call', 'plain')
+    if call == 'list':
+        x2 = x.copy()
+        x2.id = 987654
+        res = navis.heal_skeleton(navis.NeuronList([x, x2]), inplace=False, **kw)
+        return res[0], res[1]
+    if call == 'inplace':
+        z = x.copy()
+        navis.heal_skeleton(z, inplace=True, **kw)
+        return z, None
+    return navis.heal_skeleton(x, inplace=False, **kw), None
+
+
 def case_heal(ctx, case, be=None):
     rows = case['rows']
-    x = G.to_neuron(rows)
+    form = case.get('md_form', 'num')
+    x = G.to_neuron(rows, units='8 nm') if form == 'str' else G.to_neuron(rows)
     pm0 = parent_map(x)
     ue0 = uedges_of(x)
     co0 = coords_of(x)
     ids = [r['id'] for r in rows]
     mask = case['mask']
-    kw = dict(method=case['method'], max_dist=case['max_dist'], min_size=case['min_size'], drop_disc=bool(case.get('drop_disc')))
-    if mask is not None:
-        kw['mask'] = (np.array([i in set(mask) for i in x.nodes.node_id.values], dtype=bool)
-                      if case.get('mask_form') == 'bool' else list(mask))
+    kw = _heal_kwargs(case, x)
+    strict, incl = bounds(case)
     tag = f"[{be or 'default'}]"
     try:
-        y = navis.heal_skeleton(x, inplace=False, **kw)
+        with _spy_mst() as spy:
+            y, y2 = _call_heal(case, x, kw)
     except Exception as e:
         ctx.oracle(False, f'heal_skeleton({_heal_cmd(case)}) raised {type(e).__name__}: {str(e)[:120]} {tag}', case)
         return
     ctx.count('heal_method', case['method']); ctx.count('heal_backend', be or 'default')
-    ctx.count('heal_limits', '+'.join(k for k in ('max_dist', 'min_size', 'mask', 'drop_disc') if case.get(k)) or 'none')
+    ctx.count('heal_limits', '+'.join(k for k in ('max_dist', 'min_size', 'mask', 'drop_disc') if (case.get(k) is not None and case.get(k) is not False)) or 'none')
+    ctx.count('heal_call', case.get('call', 'plain'))
+    if case['max_dist'] == 0:
+        ctx.count('heal_max_dist_zero', case.get('md_form', 'num'))
+    if case['max_dist'] is not None:
+        ctx.count('heal_max_dist_form', form + ('+half' if case.get('md_half') else ''))
+    if mask is not None:
+        ctx.count('heal_mask_form', case.get('mask_form') or 'list')
     pm = parent_map(y)
     ue = uedges_of(y)
+    if y2 is not None:
+        ctx.oracle(parent_map(y2) == pm, f'heal_skeleton(NeuronList): the two identical members were healed differently {tag}', case)
     model = _parse_kv(ctx.ask(f"c11.heal {_heal_cmd(case)} | {G.wire_rows(rows)}"))
     mpm = _topo_pm(model['topo'])
     roots0 = [i for i in x.nodes.node_id.values.tolist() if pm0[i] < 0]
     nroots = sum(1 for p in pm.values() if p < 0)
     drop = bool(case.get('drop_disc'))
+
+    # ---- navis' internal fragment graph vs the as-written candidate model (tie-free inputs) ------------
+    if len(roots0) > 1:
+        if spy.cap:
+            got = sorted((min(int(a), int(b)), max(int(a), int(b)), int(round(float(d) ** 2))) for a, b, d in spy.cap[0])
+            want = sorted((lambda ab, d: (int(ab.split('-')[0]), int(ab.split('-')[1]), int(d)))(*e.split(':')[1:]) for e in model['quotkd'].split(',') if e)
+            ctx.corr(got, want, f'heal: navis\' fragment graph (nearest pair per fragment pair) vs quotientEdgesKD {tag}', case)
+            ctx.count('frag_graph_compared', min(len(got), 6))
+        else:
+            ctx.count('frag_graph_compared', 'not-captured')
 
     # ---- correspondence ---------------------------------------------------------------------
     if not drop:
@@ -327,7 +444,8 @@ def case_heal(ctx, case, be=None):
         ctx.count('heal_added', len(added_impl))
     else:
         # largest remaining fragment; comparable when it is unique
-        yy = navis.heal_skeleton(x, inplace=False, **dict(kw, drop_disc=False))
+        kw0 = dict(kw, drop_disc=False)
+        yy = navis.heal_skeleton(x, inplace=False, **kw0)
         pmh = parent_map(yy)
         sizes = {}
         for i in pmh:
@@ -359,21 +477,27 @@ def case_heal(ctx, case, be=None):
         ctx.oracle(nroots == 1, f'heal without limits left {nroots} roots {tag}', case)
     if case['max_dist'] is not None:
         for a, b in added_impl:
-            ctx.oracle(d2(byid[a], byid[b]) <= case['max_dist'] ** 2,
-                       f'heal added edge {a}-{b} of squared length {d2(byid[a], byid[b])}, max_dist={case["max_dist"]} {tag}', case)
-    al, fm = allowed_nodes(rows, case['method'], case['min_size'], None if mask is None else set(mask))
+            ctx.oracle(d2(byid[a], byid[b]) <= incl,
+                       f'heal added edge {a}-{b} of squared length {d2(byid[a], byid[b])}, max_dist={md_value(case)} {tag}', case)
+    al, fm = allowed_nodes(rows, case['method'].upper() if isinstance(case['method'], str) else case['method'], case['min_size'], None if mask is None else set(mask))
     alset = {r['id'] for r in al}
     for a, b in added_impl:
         ctx.oracle(a in alset and b in alset, f'heal added edge {a}-{b} uses a node outside method/min_size/mask {tag}', case)
         ctx.oracle(fm[a] != fm[b], f'heal added edge {a}-{b} inside one fragment {tag}', case)
-    md2 = 'inf' if case['max_dist'] is None else str(case['max_dist'] ** 2)
-    ok = ctx.ask(f"c11.healok {md2} | {G.wire_rows(rows)} | {G.wire_neuron(y, labels=False)}")
+    md2 = 'inf' if case['max_dist'] is None else str(incl)
+    wy = G.wire_neuron(y, labels=False)
+    ok = ctx.ask(f"c11.healok {md2} | {G.wire_rows(rows)} | {wy}")
     ctx.oracle(ok == '1', f'Lean checker healOKB rejects navis\' result (max_dist²={md2}) {tag}', case)
-    # minimality (TEST): exhaustive enumeration of spanning forests of the quotient graph
+    # minimality, decided by the Lean checker (proved sound: Props/C11 healMinOKB_checker_sound) on navis' own output
+    hm = ctx.ask(f"c11.healmin {' '.join(_heal_cmd(case).split()[:4])} | {G.wire_rows(rows)} | {wy}").split()
+    ctx.oracle(hm[0] == '1', f'Lean checker healMinOKB rejects navis\' result: every added edge an allowed connection = {hm[1]}, '
+                             f'added lengths are those of a minimum spanning forest = {hm[2]} {tag}', case)
+    # minimality (TEST, independent of the model): exhaustive enumeration of spanning forests of the quotient graph
     frs = sorted(set(fm.values()))
+    meth_u = case['method'].upper() if isinstance(case['method'], str) else case['method']
     if len(frs) <= 6:
-        qg, _ = quotient_graph(rows, case['method'], case['max_dist'], case['min_size'], None if mask is None else set(mask))
-        qgi, _ = quotient_graph(rows, case['method'], case['max_dist'], case['min_size'], None if mask is None else set(mask), inclusive=True)
+        qg, _ = quotient_graph(rows, meth_u, md_value(case), case['min_size'], None if mask is None else set(mask))
+        qgi, _ = quotient_graph(rows, meth_u, md_value(case), case['min_size'], None if mask is None else set(mask), inclusive=True)
         if len(qgi) != len(qg):
             # a candidate connection of length exactly max_dist: whether it may be used is the implementation's
             # choice (the property only forbids LONGER edges); the correspondence above pins navis' choice (strict)
@@ -391,6 +515,82 @@ def case_heal(ctx, case, be=None):
     ctx.oracle(parent_map(x) == pm0 and coords_of(x) == co0, 'heal_skeleton(inplace=False) modified its input', case)
 
 
+def case_healtie(ctx, case, be=None):
+    """inputs WITH ties / coincident nodes: which minimum spanning forest navis picks is its free choice, so only the property
+    itself is judged — by the Lean checkers `healOKB` and `healMinOKB` on navis' own output"""
+    rows = case['rows']
+    x = G.to_neuron(rows)
+    pm0 = parent_map(x)
+    tag = f"[{be or 'default'}]"
+    kw = _heal_kwargs(case, x)
+    try:
+        y = navis.heal_skeleton(x, inplace=False, **kw)
+    except Exception as e:
+        ctx.oracle(False, f'heal_skeleton({_heal_cmd(case)}) raised {type(e).__name__}: {str(e)[:120]} on an input with ties {tag}', case)
+        return
+    strict, incl = bounds(case)
+    pm = parent_map(y)
+    nroots = sum(1 for p in pm.values() if p < 0)
+    ctx.count('healtie_zero_pairs', min(case.get('meta', {}).get('zero_pairs', 0), 3))
+    md2 = 'inf' if case['max_dist'] is None else str(incl)
+    wy = G.wire_neuron(y, labels=False)
+    ok = ctx.ask(f"c11.healok {md2} | {G.wire_rows(rows)} | {wy}")
+    ctx.oracle(ok == '1', f'Lean checker healOKB rejects navis\' result on an input with ties (max_dist²={md2}) {tag}', case)
+    hm = ctx.ask(f"c11.healmin {' '.join(_heal_cmd(case).split()[:4])} | {G.wire_rows(rows)} | {wy}").split()
+    ctx.oracle(hm[0] == '1', f'Lean checker healMinOKB rejects navis\' result on an input with ties: every added edge an allowed connection = {hm[1]}, '
+                             f'added lengths are those of a minimum spanning forest = {hm[2]} {tag}', case)
+    if case['max_dist'] is None and case['min_size'] is None and case['mask'] is None:
+        ctx.oracle(nroots == 1, f'heal without limits left {nroots} roots (input with ties) {tag}', case)
+    w = ctx.ask('f.wf ' + G.wire_neuron(y))
+    ctx.oracle(w == '1 1', f'heal result not a well-formed, correctly labelled forest (wf labels = {w}) (input with ties) {tag}', case)
+    ctx.oracle(parent_map(x) == pm0, 'heal_skeleton(inplace=False) modified its input', case)
+
+
+def case_healzero(ctx, case, be=None):
+    """`max_dist = 0` in every numeric form, for heal and stitch: no pair of nodes is strictly closer than 0 (and the property forbids any added edge
+    LONGER than 0), so at most zero-length bridges may appear; for non-coincident fragments the edges must be unchanged.  The unit-string form
+    `'0 nm'` is probed but not judged here: it never reaches the healing code (`map_units` → `round_smart` raises on 0 — a unit-conversion matter)."""
+    rows = case['rows']
+    tag = f"[{be or 'default'}]"
+    x = G.to_neuron(rows)
+    ue0 = uedges_of(x)
+    byid = {r['id']: r for r in rows}
+    for what, arg in (('0', 0), ('0.0', 0.0), ('np.float64(0)', np.float64(0)), ('np.int64(0)', np.int64(0))):
+        for meth in ('ALL', 'LEAFS'):
+            try:
+                y = navis.heal_skeleton(x, method=meth, max_dist=arg)
+            except Exception as e:
+                ctx.oracle(False, f'heal_skeleton(method={meth}, max_dist={what}) raised {type(e).__name__}: {str(e)[:120]} {tag}', case)
+                continue
+            added = sorted(set(uedges_of(y)) - set(ue0))
+            long_ = [(a, b) for a, b in added if d2(byid[a], byid[b]) > 0]
+            ctx.oracle(not long_, f'heal_skeleton(method={meth}, max_dist={what}) added edge(s) {long_[:3]} longer than max_dist = 0 {tag}', case)
+            ok = ctx.ask(f"c11.healok 0 | {G.wire_rows(rows)} | {G.wire_neuron(y, labels=False)}")
+            ctx.oracle(ok == '1', f'Lean checker healOKB rejects navis\' result for max_dist={what} (max_dist² = 0) {tag}', case)
+            model = _parse_kv(ctx.ask(f"c11.heal {meth} 0 - * 0 | {G.wire_rows(rows)}"))
+            ctx.corr(uedges_of(y), _ue_pm(_topo_pm(model['topo'])), f'heal(max_dist={what}): undirected edges vs model (a limit of 0 connects nothing) {tag}', case)
+    # stitch_skeletons hands max_dist to `_stitch_mst` unchanged
+    fm = frag_map(rows)
+    parts = [[r for r in rows if fm[r['id']] == f] for f in sorted(set(fm.values()))]
+    if len(parts) >= 2:
+        xs = [G.to_neuron(p, id=900 + j) for j, p in enumerate(parts)]
+        for what, arg in (('0', 0), ('0.0', 0.0)):
+            try:
+                s_ = navis.stitch_skeletons(xs, method='ALL', master='FIRST', max_dist=arg)
+            except Exception as e:
+                ctx.oracle(False, f'stitch_skeletons(max_dist={what}) raised {type(e).__name__}: {str(e)[:120]} {tag}', case)
+                continue
+            added = sorted(set(uedges_of(s_)) - set(ue0))
+            long_ = [(a, b) for a, b in added if d2(byid[a], byid[b]) > 0]
+            ctx.oracle(not long_, f'stitch_skeletons(max_dist={what}) added edge(s) {long_[:3]} longer than max_dist = 0 {tag}', case)
+    # unit string: recorded, not judged (see docstring)
+    try:
+        navis.heal_skeleton(x, max_dist='0 nm')
+        ctx.count('heal_max_dist_0nm', 'accepted')
+    except Exception as e:
+        ctx.count('heal_max_dist_0nm', f'raises {type(e).__name__}')
+
+
 # ---------------------------------------------------------------------------------------------
 # break_fragments / drop_fluff
 # ---------------------------------------------------------------------------------------------
@@ -401,7 +601,7 @@ def case_break(ctx, case, be=None):
     tag = f"[{be or 'default'}]"
     k = case.get('min_size') or 0
     try:
-        res = navis.break_fragments(x, min_size=(k or None))
+        res = navis.break_fragments(navis.NeuronList([x]) if case.get('call') == 'list1' else x, min_size=(k or None))
     except Exception as e:
         ctx.oracle(False, f'break_fragments raised {type(e).__name__}: {str(e)[:120]} {tag}', case)
         return
@@ -445,11 +645,20 @@ def case_fluff(ctx, case, be=None):
     ks, nl = case.get('keep_size'), case.get('n_largest')
     kw = {}
     if ks is not None:
-        kw['keep_size'] = ks if isinstance(ks, int) else ks[0] / ks[1]
+        kw['keep_size'] = ks if isinstance(ks, (int, float)) else ks[0] / ks[1]
     if nl is not None:
         kw['n_largest'] = nl
+    call = case.get('call', 'plain')
     try:
-        y = navis.drop_fluff(x, inplace=False, **kw)
+        if call == 'inplace':
+            y = x.copy()
+            navis.drop_fluff(y, inplace=True, **kw)
+        elif call == 'list':
+            x2 = x.copy()
+            x2.id = 987655
+            y = navis.drop_fluff(navis.NeuronList([x, x2]), inplace=False, **kw)[0]
+        else:
+            y = navis.drop_fluff(x, inplace=False, **kw)
     except Exception as e:
         ctx.oracle(False, f'drop_fluff({kw}) raised {type(e).__name__}: {str(e)[:120]} {tag}', case)
         return
@@ -464,6 +673,9 @@ def case_fluff(ctx, case, be=None):
     elif isinstance(ks, int):
         elig = [c for c in comps if len(c) >= ks]
         kstr = f'{ks}:1'
+    elif isinstance(ks, float):             # a non-integral size >= 1: 2.5 = 5/2
+        elig = [c for c in comps if len(c) >= ks]
+        kstr = f'{int(ks * 2)}:2'
     else:
         elig = [c for c in comps if len(c) * ks[1] >= n * ks[0]]
         kstr = f'{n * ks[0]}:{ks[1]}'
@@ -488,24 +700,48 @@ def case_fluff(ctx, case, be=None):
     if not tie:
         model = ctx.ask(f"c11.fluff {kstr} {'-' if nl is None else nl} | {G.wire_neuron(x)}")
         ctx.corr(G.topo_neuron(y), model, f'drop_fluff({kw}) vs model {tag}', case)
-    ctx.count('fluff_args', f"ks={'none' if ks is None else ('int' if isinstance(ks, int) else 'frac')},nl={nl is not None}")
+    ctx.count('fluff_args', f"ks={'none' if ks is None else ('int' if isinstance(ks, int) else ('float' if isinstance(ks, float) else 'frac'))},nl={nl is not None}")
+    ctx.count('fluff_call', call)
     ctx.oracle(parent_map(x) == pm0, 'drop_fluff(inplace=False) modified its input', case)
 
 
 # ---------------------------------------------------------------------------------------------
 # stitch / combine
 # ---------------------------------------------------------------------------------------------
-def gen_stitch_case(rng):
+def _ids_for(rng, style, j, n, clash_pool, prev_max):
+    """node ids of the j-th neuron under the labelling style"""
+    if style == 'swc':                      # every neuron numbered 1..n (what read_swc produces)
+        return list(range(1, n + 1))
+    if style == 'partial':                  # overlaps the ids seen so far and continues beyond them
+        if j == 0:
+            return list(range(1, n + 1))
+        start = rng.randint(max(1, prev_max - 1), max(1, prev_max))
+        return list(range(start, start + max(n, prev_max - start + 2)))
+    return rng.sample(clash_pool, n) if rng.random() < 0.8 else rng.sample(range(100 * (j + 1), 100 * (j + 1) + 40), n)
+
+
+def gen_stitch_case(rng, style=None):
     for _ in range(200):
-        k = rng.randint(2, 4)
+        style_ = style or rng.choice(['pool', 'pool', 'pool', 'partial', 'swc'])
+        k = rng.randint(3, 4) if style_ == 'swc' else rng.randint(2, 4)
         neurons, allrows = [], []
         clash_pool = list(range(rng.choice([0, 1]), 12))
+        prev_max = 0
         for j in range(k):
             n = rng.randint(1, 5)
             shape = rng.choice(['chain', 'random', 'star', 'random', 'forest'] if n > 2 else ['chain'])
+            if style_ == 'partial' and j > 0:
+                n = max(n, 2)
+                shape = rng.choice(['chain', 'random'])
+            ids = _ids_for(rng, style_, j, n, clash_pool, prev_max)
+            if len(ids) != n:
+                n = len(ids)
+                shape = rng.choice(['chain', 'random'])
             par = G.shape_parents(rng, shape, n)
+            if len(par) != len(ids):
+                par = G.shape_parents(rng, 'chain', len(ids))
             n = len(par)
-            ids = rng.sample(clash_pool, n) if rng.random() < 0.8 else rng.sample(range(100 * (j + 1), 100 * (j + 1) + 40), n)
+            prev_max = max(prev_max, max(ids))
             c0 = [rng.randrange(2000) for _ in range(3)]
             pos = []
             for t in range(n):
@@ -537,22 +773,62 @@ def gen_stitch_case(rng):
         if not ok:
             continue
         method = rng.choice(['NONE', 'NONE', 'ALL', 'ALL', 'LEAFS', 'LIST', 'COMBINE'])
-        case = dict(neurons=neurons, method=method, master=rng.choice(['SOMA', 'LARGEST', 'FIRST']), max_dist=None)
+        case = dict(neurons=neurons, method=method, master=rng.choice(['SOMA', 'LARGEST', 'FIRST']), max_dist=None, style=style_)
+        if style_ == 'partial' and rng.random() < 0.7:
+            case['master'] = 'FIRST'            # the neuron with the small ids is the master
+        if case['master'] == 'SOMA' and rng.random() < 0.7:
+            # explicit somas on a random non-empty subset of the neurons
+            somas = [None] * k
+            for j in rng.sample(range(k), rng.randint(1, k)):
+                somas[j] = rng.choice([r['id'] for r in neurons[j]['rows']])
+            case['somas'] = somas
         if method == 'LIST':
             allids = sorted({r['id'] for nn in neurons for r in nn['rows']})
             pool = allids + list(range(max(allids) + 1, max(allids) + 1 + sum(len(nn['rows']) for nn in neurons)))
             case['method'] = sorted(rng.sample(pool, rng.randint(1, len(pool))))
             case['method_form'] = rng.choice(['list', 'array', 'tuple'])
-        if method in ('ALL', 'LEAFS') and rng.random() < 0.3:
-            case['max_dist'] = rng.choice([50, 300, 1000, 2500])
+        if method in ('ALL', 'LEAFS') and rng.random() < 0.4:
+            if rng.random() < 0.5:
+                case['max_dist'] = rng.choice([0, 50, 300, 1000, 2500])
+            else:               # next to one of the cross distances, so that the limit bites
+                v = rng.choice(sorted(seen)[:max(1, len(seen) // 3)])
+                case['max_dist'] = max(1, math.isqrt(v) + rng.choice([0, 1, 1, 5]))
         if method == 'COMBINE':
             case['master'] = 'FIRST'
+            case.pop('somas', None)
         return case
     raise RuntimeError('could not generate a stitch case')
 
 
-def _mk_neuron(nn, idx):
+def partial_clash_grid():
+    """exhaustive small cross product: master ids 1..a, the other neuron owns ids s..e with s <= a < e (partial clash, larger own ids),
+    optionally a third SWC-style neuron; chains on generic lattice positions; every master option that selects the first neuron"""
+    def chain(ids, j):
+        return [dict(id=i, parent=(ids[t - 1] if t else -1), x=7 * t + 13 * j * j, y=101 * j + 3 * t * t, z=17 * j + t) for t, i in enumerate(ids)]
+    for a in (1, 2, 3):
+        for s_ in range(1, a + 1):
+            for e in (a + 1, a + 2):
+                A, B = list(range(1, a + 1)), list(range(s_, e + 1))
+                for third in (False, True):
+                    for master, somas in (('FIRST', None), ('SOMA', 'first')):
+                        for method in ('NONE', 'COMBINE', 'ALL'):
+                            if method == 'COMBINE' and master != 'FIRST':
+                                continue
+                            ns = [dict(rows=chain(A, 0), conns=[[1000, A[-1]]], tags={'ends': [A[-1]]}),
+                                  dict(rows=chain(B, 1), conns=[[2000, B[0]], [2001, B[-1]]], tags={'ends': [B[-1]], 'foo': [B[0]]})]
+                            if third:
+                                C = list(range(1, 4))
+                                ns.append(dict(rows=chain(C, 2), conns=[[3000, 2]], tags={'bar': [1, 3]}))
+                            case = dict(neurons=ns, method=method, master=master, max_dist=None, style='grid')
+                            if somas:
+                                case['somas'] = [A[0]] + [None] * (len(ns) - 1)
+                            yield case
+
+
+def _mk_neuron(nn, idx, soma=None):
     x = G.to_neuron(nn['rows'], id=500 + idx, name=f'n{idx}')
+    if soma is not None:
+        x.soma = soma
     if nn['conns']:
         x.connectors = pd.DataFrame({'connector_id': [c[0] for c in nn['conns']], 'node_id': [c[1] for c in nn['conns']],
                                      'type': ['pre'] * len(nn['conns']), 'x': 0.0, 'y': 0.0, 'z': 0.0})
@@ -570,6 +846,15 @@ def _skel_wire(nn):
     return f"{G.wire_rows(nn['rows'])} # {cn} # {tg}"
 
 
+def _skel_wire_out(s):
+    """navis' combined / stitched neuron in the skeleton wire format (rows in ITS order, connectors, tags)"""
+    cn = ''
+    if s.has_connectors:
+        cn = ','.join(f'{int(c)}:{int(n)}' for c, n in zip(s.connectors.connector_id.values, s.connectors.node_id.values))
+    tg = ','.join(f"{_TAGCODE[k]}:{'+'.join(str(int(i)) for i in v)}" for k, v in (getattr(s, 'tags', None) or {}).items() if k in _TAGCODE)
+    return f"{G.wire_neuron(s, labels=False)} # {cn} # {tg}"
+
+
 def _tags_norm(tags):
     """{name: [ids]} -> sorted list of (code, id) with multiplicity"""
     return sorted((_TAGCODE.get(k, k), int(i)) for k, v in (tags or {}).items() for i in v)
@@ -578,13 +863,43 @@ def _tags_norm(tags):
 def case_stitch(ctx, case, be=None):
     neurons = case['neurons']
     tag = f"[{be or 'default'}]"
-    xs = [_mk_neuron(nn, j) for j, nn in enumerate(neurons)]
+    somas = case.get('somas') or [None] * len(neurons)
+    xs = [_mk_neuron(nn, j, somas[j]) for j, nn in enumerate(neurons)]
     before = [(parent_map(x), x.connectors.copy() if x.has_connectors else None, dict(x.tags or {}) if getattr(x, 'tags', None) else {}) for x in xs]
     method = case['method']
     is_list = isinstance(method, list)
+    if case['master'] == 'FIRST':
+        mcode = 'F'
+    elif case['master'] == 'SOMA' and any(bool(x.has_soma) for x in xs):
+        # which neurons HAVE a soma is navis' own answer (soma detection is not C11's business; a soma at node id 0 is not recognised)
+        mcode = 'S=' + ''.join('1' if bool(x.has_soma) else '0' for x in xs)
+    else:
+        mcode = 'L'                         # 'SOMA' without any soma falls back to 'LARGEST'
+    payload = ' ;; '.join(_skel_wire(nn) for nn in neurons)
+    md = 'inf' if case['max_dist'] is None else str(case['max_dist'] ** 2)
+    ctx.count('stitch_style', case.get('style', 'corpus')); ctx.count('stitch_master_code', mcode[0])
+
+    # ---- step 0: the combine step ALONE (`method='NONE'` never touches the graph code).  The ids / id maps / remapped tables are judged by
+    # the Lean checker on navis' own table before anything else runs on it (duplicate ids make the compiled graph code abort).
     try:
-        if method == 'COMBINE':
-            s = navis.combine_neurons(xs)
+        s0 = navis.combine_neurons(xs) if method == 'COMBINE' else navis.stitch_skeletons(xs, method='NONE', master=case['master'])
+    except Exception as e:
+        ctx.oracle(False, f'stitch_skeletons(method=NONE, master={case["master"]}) raised {type(e).__name__}: {str(e)[:120]} {tag}', case)
+        return
+    m0 = _parse_kv(ctx.ask(f"c11.stitch {mcode} NONE {md} | {payload}"))
+    mix = int(m0['mix'])
+    d = ctx.ask(f"c11.stitchok {mix} 0 inf | {_skel_wire_out(s0)} ;; {payload}").split()
+    ctx.oracle(d[0] == '1', f'stitch (combine step, master={case["master"]}): Lean checker stitchOKB rejects navis\' combined table '
+                            f'{s0.nodes.node_id.values.tolist()}: ids unique = {d[3]}, one injective id map per input with the master untouched = {d[4]}, '
+                            f'rows / parents are the remapped inputs\' = {d[5]}, connectors = {d[6]}, tags = {d[7]} {tag}', case)
+    if d[0] != '1':
+        return
+    ctx.count('stitchok_maps_from', 'position' if d[1] == '1' else 'coordinates')
+    mst = xs[mix]
+    ctx.count('stitch_result_meta_is_masters', f"name={s0.name == mst.name},id={s0.id == mst.id},units={str(s0.units) == str(mst.units)}")
+    try:
+        if method in ('COMBINE', 'NONE'):
+            s = s0
         else:
             marg = method
             if is_list and case.get('method_form') == 'array':
@@ -596,21 +911,22 @@ def case_stitch(ctx, case, be=None):
         ctx.oracle(False, f'stitch_skeletons(method={method}, master={case["master"]}) raised {type(e).__name__}: {str(e)[:120]} {tag}', case)
         return
     ctx.count('stitch_method', 'LIST' if is_list else method); ctx.count('stitch_master', case['master'])
-    mcode = 'F' if case['master'] == 'FIRST' else 'L'      # no somas are generated: SOMA falls back to LARGEST
     mm = 'NONE' if method in ('NONE', 'COMBINE') else ('L=' + ','.join(map(str, method)) if is_list else method)
-    md = 'inf' if case['max_dist'] is None else str(case['max_dist'] ** 2)
-    payload = ' ;; '.join(_skel_wire(nn) for nn in neurons)
+    if method not in ('NONE', 'COMBINE'):
+        d = ctx.ask(f"c11.stitchok {mix} 1 {md} | {_skel_wire_out(s)} ;; {payload}").split()
+        ctx.oracle(d[0] == '1', f'stitch(method={"LIST" if is_list else method}): Lean checker stitchOKB (fused) rejects navis\' result: ids unique = {d[3]}, '
+                                f'id maps = {d[4]}, admissible healing of the remapped inputs (rows kept, forest, old edges kept, one new edge per merge, '
+                                f'max_dist) = {d[5]}, connectors = {d[6]}, tags = {d[7]} {tag}', case)
     if is_list:
         # the list names ids of the COMBINED table; which clashing node receives which fresh id is navis' free choice
         # (set iteration order), so the list is translated node by node (via coordinates) into the model's labelling
-        m0 = _parse_kv(ctx.ask(f"c11.stitch {mcode} NONE {md} | {payload}"))
         c2m = {(r[2], r[3], r[4]): r[0] for r in (tuple(map(int, t.split(':'))) for t in m0['nodes'].split())}
         impl_c = {int(i): (int(a), int(b), int(c)) for i, a, b, c in
                   zip(s.nodes.node_id.values, s.nodes.x.values, s.nodes.y.values, s.nodes.z.values)}
         mlist = sorted(c2m[impl_c[i]] for i in method if i in impl_c and impl_c[i] in c2m)
         mm = 'L=' + ','.join(map(str, mlist)) if mlist else 'L=-1'
     model = _parse_kv(ctx.ask(f"c11.stitch {mcode} {mm} {md} | {payload}"))
-    mix = int(model['mix'])
+    ctx.corr(mix, int(model['mix']), f'stitch: master index {tag}', case)
 
     # ---- implementation's table, nodes identified by coordinates ----------------------------------
     nd = s.nodes
@@ -713,7 +1029,100 @@ def case_stitch(ctx, case, be=None):
 
 
 # ---------------------------------------------------------------------------------------------
-RUNNERS = {'heal': case_heal, 'break': case_break, 'fluff': case_fluff, 'stitch': case_stitch}
+def gen_mesh_case(rng):
+    """2–3 small closed meshes (tetrahedra / octahedra with distinct integer vertices), optional connectors"""
+    meshes = []
+    for j in range(rng.randint(2, 3)):
+        o = [1000 * j + rng.randrange(100) for _ in range(3)]
+        if rng.random() < 0.5:
+            v = [[o[0], o[1], o[2]], [o[0] + 10, o[1], o[2]], [o[0], o[1] + 10, o[2]], [o[0], o[1], o[2] + 10]]
+            f = [[0, 2, 1], [0, 1, 3], [0, 3, 2], [1, 2, 3]]
+        else:
+            v = [[o[0] + 10, o[1], o[2]], [o[0] - 10, o[1], o[2]], [o[0], o[1] + 10, o[2]], [o[0], o[1] - 10, o[2]], [o[0], o[1], o[2] + 10], [o[0], o[1], o[2] - 10]]
+            f = [[0, 2, 4], [2, 1, 4], [1, 3, 4], [3, 0, 4], [2, 0, 5], [1, 2, 5], [3, 1, 5], [0, 3, 5]]
+        meshes.append(dict(v=v, f=f, cn=rng.randint(0, 2)))
+    return dict(meshes=meshes)
+
+
+def case_combine_other(ctx, case, be=None):
+    """`combine_neurons` on MeshNeurons and Dotprops: nothing is lost or invented"""
+    ms = case['meshes']
+    xs = []
+    for j, m in enumerate(ms):
+        x = navis.MeshNeuron((np.array(m['v'], dtype=float), np.array(m['f'], dtype=int)), units='1 nm', id=700 + j, name=f'm{j}')
+        if m['cn']:
+            x.connectors = pd.DataFrame({'connector_id': [100 * j + c for c in range(m['cn'])], 'type': ['pre'] * m['cn'],
+                                         'x': [float(m['v'][c][0]) for c in range(m['cn'])], 'y': 0.0, 'z': 0.0})
+        xs.append(x)
+    try:
+        c = navis.combine_neurons(xs)
+    except Exception as e:
+        ctx.oracle(False, f'combine_neurons(MeshNeurons) raised {type(e).__name__}: {str(e)[:120]}', case)
+        return
+    cv = [tuple(int(round(t)) for t in r) for r in np.asarray(c.vertices)]
+    want_v = [tuple(r) for m in ms for r in m['v']]
+    ctx.oracle(sorted(set(cv)) == sorted(set(want_v)), 'combine_neurons(MeshNeurons): the vertex set is not the union of the inputs\' vertices', case)
+    tri = sorted(tuple(cv[i] for i in f) for f in np.asarray(c.faces).tolist())
+    want_tri = sorted(tuple(tuple(m['v'][i]) for i in f) for m in ms for f in m['f'])
+    ctx.oracle(tri == want_tri, 'combine_neurons(MeshNeurons): faces (as coordinate triples, with orientation) are not exactly the inputs\' faces', case)
+    if len(cv) == len(want_v):          # no vertex merging: compare with the model's index shift
+        model = ctx.ask('c11.meshcat ' + ' ; '.join(f"{len(m['v'])}:" + ','.join('-'.join(map(str, f)) for f in m['f']) for m in ms))
+        ctx.corr(','.join('-'.join(map(str, f)) for f in np.asarray(c.faces).tolist()), model, 'combine_neurons(MeshNeurons): faces vs concatFaces', case)
+    ncn = sum(m['cn'] for m in ms)
+    got = len(c.connectors) if c.has_connectors else 0
+    ctx.oracle(got == ncn, f'combine_neurons(MeshNeurons): {got} connectors for {ncn} input connectors', case)
+    ctx.count('combine_other', 'mesh')
+    # Dotprops from the same point sets
+    dps = [navis.make_dotprops(np.array(m['v'], dtype=float), k=3) for m in ms]
+    for j, d in enumerate(dps):
+        d.id = 800 + j
+    try:
+        dc = navis.combine_neurons(dps)
+    except Exception as e:
+        ctx.oracle(False, f'combine_neurons(Dotprops) raised {type(e).__name__}: {str(e)[:120]}', case)
+        return
+    pts = [tuple(int(round(t)) for t in r) for r in np.asarray(dc.points)]
+    ctx.oracle(pts == want_v, 'combine_neurons(Dotprops): points are not the inputs\' points in order', case)
+    vect = np.vstack([d.vect for d in dps])
+    ctx.oracle(np.asarray(dc.vect).shape == vect.shape and np.array_equal(np.asarray(dc.vect), vect),
+               'combine_neurons(Dotprops): tangent vectors are not the inputs\' vectors in order', case)
+    ctx.oracle(len(dc.alpha) == len(pts), 'combine_neurons(Dotprops): alpha does not cover every point', case)
+    ctx.count('combine_other', 'dotprops')
+    for x, m in zip(xs, ms):
+        ctx.oracle(np.asarray(x.vertices).shape[0] == len(m['v']), 'combine_neurons modified an input mesh', case)
+
+
+def gen_tie_rows(rng):
+    """2–5 small fragments on a tiny lattice: cross distances repeat and nodes of different fragments may coincide"""
+    for _ in range(100):
+        k = rng.randint(2, 5)
+        rows, nid, zero = [], 1, 0
+        ids = list(range(1, 40)); rng.shuffle(ids)
+        p = 0
+        span = rng.choice([2, 3, 5])
+        for f in range(k):
+            n = rng.randint(1, 4)
+            par = G.shape_parents(rng, rng.choice(['chain', 'random', 'star']), n)
+            pos = []
+            for j in range(len(par)):
+                pos.append([rng.randrange(span) * 3 for _ in range(3)] if par[j] < 0 else [pos[par[j]][t] + rng.choice([-3, 0, 0, 3]) for t in range(3)])
+            for j in range(len(par)):
+                rows.append(dict(id=ids[p + j], parent=(ids[p + par[j]] if par[j] >= 0 else -1), x=pos[j][0], y=pos[j][1], z=pos[j][2]))
+            p += len(par)
+        fm = frag_map(rows)
+        cross = [d2(a, b) for a, b in itertools.combinations(rows, 2) if fm[a['id']] != fm[b['id']]]
+        if len(set(cross)) == len(cross):
+            continue                        # no tie at all: belongs to the main stream
+        if rng.random() < 0.5:
+            rng.shuffle(rows)
+        return rows, dict(nfrag=k, n=len(rows), zero_pairs=sum(1 for v in cross if v == 0), stream='ties')
+    raise RuntimeError('could not generate a tie case')
+
+
+# kinds whose code path depends on the graph back-end (C04 re-runs only these)
+BACKEND_STREAMS = ('heal', 'healtie', 'break', 'fluff', 'stitch')
+RUNNERS = {'heal': case_heal, 'break': case_break, 'fluff': case_fluff, 'stitch': case_stitch,
+           'healtie': case_healtie, 'healzero': case_healzero, 'combine_other': case_combine_other}
 
 
 def gen_cases(ctx):
@@ -723,19 +1132,36 @@ def gen_cases(ctx):
         o = rand_opts(r, rows)
         yield 'heal', dict(rows=rows, meta=meta, **o)
         if k % 3 == 0:      # the same fragments without any limit: one tree, minimal
-            yield 'heal', dict(rows=rows, meta=meta, method=r.choice(['ALL', 'LEAFS']), max_dist=None, min_size=None, mask=None, drop_disc=False)
+            yield 'heal', dict(rows=rows, meta=meta, method=r.choice(['ALL', 'LEAFS', 'all', 'Leafs']), max_dist=None, min_size=None, mask=None, drop_disc=False,
+                               call=r.choice(['plain', 'plain', 'list', 'inplace']))
     for k in range(ctx.budget(25, 250)):
         rows, meta, L = gen_tie_case(r)
         for md in (L, L + 1):
-            yield 'heal', dict(rows=rows, meta=dict(meta, stream='exact'), method='ALL', max_dist=md, min_size=None, mask=None, drop_disc=False)
+            yield 'heal', dict(rows=rows, meta=dict(meta, stream='exact'), method='ALL', max_dist=md, min_size=None, mask=None, drop_disc=False,
+                               md_form=r.choice(['num', 'float', 'np', 'str']))
+        # half-integer limits on both sides of the exact distance, in every form
+        for md in (L - 1, L):
+            yield 'heal', dict(rows=rows, meta=dict(meta, stream='exact-half'), method='ALL', max_dist=md, md_half=True, min_size=None, mask=None,
+                               drop_disc=False, md_form=r.choice(['num', 'np', 'str']))
+    for k in range(ctx.budget(40, 400)):
+        rows, meta = gen_tie_rows(r)
+        o = dict(method=r.choice(['ALL', 'ALL', 'LEAFS']), max_dist=r.choice([None, None, 0, 3, 4, 6]), min_size=r.choice([None, None, 2]), mask=None, drop_disc=False)
+        if r.random() < 0.25:
+            o['mask'] = sorted(r.sample([x['id'] for x in rows], r.randint(1, len(rows))))
+            o['mask_form'] = r.choice(['list', 'bool'])
+        yield 'healtie', dict(rows=rows, meta=meta, **o)
     for k in range(ctx.budget(80, 800)):
         rows, meta = G.rand_forest(r, shape=r.choice(['forest', 'forest', 'isolated', 'random', 'single', 'broot']), nmax=20)
-        yield 'break', dict(rows=rows, meta=meta, min_size=r.choice([0, 0, 1, 2, 3]))
-        ks = r.choice([None, None, r.randint(1, 5), (1, 2), (1, 4)])
-        nl = r.choice([None, 1, 2, 3])
-        yield 'fluff', dict(rows=rows, meta=meta, keep_size=ks, n_largest=nl)
+        yield 'break', dict(rows=rows, meta=meta, min_size=r.choice([0, 0, 1, 2, 3]), call=r.choice(['plain', 'plain', 'list1']))
+        ks = r.choice([None, None, r.randint(1, 5), (1, 2), (1, 4), 2.5])
+        nl = r.choice([None, 1, 2, 3, 50])
+        yield 'fluff', dict(rows=rows, meta=meta, keep_size=ks, n_largest=nl, call=r.choice(['plain', 'plain', 'inplace', 'list']))
     for k in range(ctx.budget(150, 1200)):
         yield 'stitch', gen_stitch_case(r)
+    for k in range(ctx.budget(20, 200)):
+        yield 'stitch', gen_stitch_case(r, style=r.choice(['partial', 'swc']))
+    for k in range(ctx.budget(6, 60)):
+        yield 'combine_other', gen_mesh_case(r)
 
 
 def corpus(ctx):
@@ -755,6 +1181,32 @@ def corpus(ctx):
     yield 'heal', dict(rows=ex, meta=dict(stream='corpus'), method='LEAFS', max_dist=None, min_size=None, mask=[5, 6, 1, 3], mask_form='list', drop_disc=False)
     yield 'heal', dict(rows=ex, meta=dict(stream='corpus'), method='ALL', max_dist=None, min_size=2, mask=None, drop_disc=True)
     yield 'heal', dict(rows=ex[:3], meta=dict(stream='corpus'), method='ALL', max_dist=None, min_size=None, mask=None, drop_disc=False)
+    # second pass: every call form / max_dist form / mask form once on the fixed example
+    for call in ('list', 'inplace'):
+        yield 'heal', dict(rows=ex, meta=dict(stream='corpus'), method='leafs', max_dist=None, min_size=None, mask=None, drop_disc=False, call=call)
+    for form in ('num', 'np', 'str'):
+        for md, half in ((10, False), (11, False), (9, True), (10, True)):
+            yield 'heal', dict(rows=ex, meta=dict(stream='corpus'), method='ALL', max_dist=md, md_half=half, md_form=form, min_size=None, mask=None, drop_disc=False)
+    for mf in ('list', 'bool', 'boollist', 'array'):
+        yield 'heal', dict(rows=ex, meta=dict(stream='corpus'), method='ALL', max_dist=None, min_size=None, mask=[7, 1, 2, 3], mask_form=mf, drop_disc=False)
+    yield 'healzero', dict(rows=ex, meta=dict(stream='corpus'))
+    for form in ('num', 'float', 'np'):
+        yield 'heal', dict(rows=ex, meta=dict(stream='corpus'), method='ALL', max_dist=0, md_form=form, min_size=None, mask=None, drop_disc=False)
+    # coincident nodes in different fragments (as after cutting): zero-length bridges, ties
+    co = [dict(id=1, parent=-1, x=0, y=0, z=0), dict(id=2, parent=1, x=3, y=0, z=0), dict(id=3, parent=-1, x=3, y=0, z=0), dict(id=4, parent=3, x=6, y=0, z=0),
+          dict(id=5, parent=-1, x=3, y=0, z=0), dict(id=6, parent=-1, x=6, y=4, z=0)]
+    for md in (None, 1, 4, 5):
+        yield 'healtie', dict(rows=co, meta=dict(stream='corpus', zero_pairs=3), method='ALL', max_dist=md, min_size=None, mask=None, drop_disc=False)
+    # partial id clashes in which the non-master neuron owns larger non-clashing ids: exhaustive small cross product
+    for case in partial_clash_grid():
+        yield 'stitch', case
+    # three SWC-style neurons, two of them clash with what was seen before them
+    C3 = [dict(id=r['id'], parent=r['parent'], x=r['x'] + 50, y=r['y'] + 7, z=r['z'] + 90) for r in A]
+    for master in ('FIRST', 'LARGEST', 'SOMA'):
+        for method in ('NONE', 'ALL'):
+            yield 'stitch', dict(neurons=[dict(rows=A, conns=[[100, 3]], tags={'ends': [3]}), dict(rows=B, conns=[[200, 3]], tags={'ends': [3]}),
+                                          dict(rows=C3, conns=[[300, 1]], tags={'foo': [2]})], method=method, master=master, max_dist=None, style='corpus-3swc',
+                                 somas=([None, 2, None] if master == 'SOMA' else None))
 
 
 def _run_case(ctx, kind, case, be):
@@ -778,9 +1230,13 @@ def _run_case(ctx, kind, case, be):
 
 def run(ctx, be=None):
     ctx.extra['rule'] = ('heal: 2–6 random tree fragments on an integer lattice with pairwise distinct cross-fragment squared distances '
-                         '(ties rejected) × method × max_dist near a cross distance × min_size × mask (list / boolean) × drop_disc; '
-                         'exact-distance stream (bridging distance an integer L, max_dist ∈ {L, L+1}); break/fluff: forests from harness/gen.py; '
-                         'stitch: 2–4 neurons with clashing ids, connectors and tags; non-trivial = ≥ 3 nodes; distinct by JSON digest')
+                         '(ties rejected) × method (any case) × max_dist near a cross distance × min_size × mask (list / bool array / bool list / int array) × drop_disc '
+                         '× call form (plain / NeuronList / inplace); exact-distance stream (bridging distance an integer L, max_dist ∈ {L, L+1, L−½, L+½} as number / '
+                         'numpy float / unit string on a neuron in 8 nm); healtie: 2–5 fragments on a tiny lattice WITH repeated cross distances and coincident nodes '
+                         '(judged by the Lean checkers only); break/fluff: forests from harness/gen.py (NeuronList / inplace forms, keep_size int / float / fraction); '
+                         'stitch: 2–4 neurons with clashing ids (random pool, partial clash with larger own ids, SWC-style 1..n, exhaustive small partial-clash grid), '
+                         'connectors and tags, master FIRST / LARGEST / SOMA with explicit somas; combine_other: 2–3 small meshes and their dotprops; '
+                         'non-trivial = ≥ 3 nodes; distinct by JSON digest')
     for kind, case in corpus(ctx):
         _run_case(ctx, kind, case, be)
     for kind, case in gen_cases(ctx):
@@ -804,9 +1260,13 @@ def run(ctx, be=None):
                     _run_case(ctx, kind, case, b)
             finally:
                 ctx.rng = saved
-    ctx.notes.append('minimality of the total added length on navis\' own output is a TEST (exhaustive enumeration of the spanning '
-                     'forests of the quotient graph, ≤ 6 fragments); for the model it is proved (Props/C11 kruskal_minimal) and '
-                     'transfers through the exact correspondence of the added edges on tie-free inputs')
+    ctx.notes.append('minimality of the total added length on navis\' own output is decided by the Lean checker healMinOKB (proved sound: '
+                     'Props/C11 healMinOKB_checker_sound — minimal against ALL lists of allowed connections); the exhaustive enumeration of the spanning '
+                     'forests of the quotient graph (≤ 6 fragments) is kept as an independent TEST')
+    ctx.notes.append('stitch: the combine step (method=NONE) is judged by the Lean checker stitchOKB on navis\' own table BEFORE the requested method '
+                     'runs on it (duplicate ids abort the compiled graph code)')
+    ctx.notes.append('not present in this navis version (nothing to cover): heal_skeleton(use_radii=…), stitch_skeletons(tn_to_stitch=…, suggest_only=…); '
+                     '_mst_igraph / _mst_nx are dead code (never called)')
 
 
 def replay(ctx, rp):
